@@ -38,6 +38,7 @@ def required(tier):
         "shape.right_assoc": 20,
         "shape.left_assoc": 20,
         "shape.rule_level_inheritance": 30,
+        "shape.strategy_marks": 20,
         "cover.create_table": 60,
     }
 
@@ -151,9 +152,12 @@ def ambiguous_grammar(rng, table):
     start = rng.randint(0, len(pool) - len(levels))
     prio = dict(zip(levels, pool[start : start + len(levels)]))
     table = {o: (prio[l], a) for o, (l, a) in table.items()}
+    marks = rng.random() < 0.3
     if rng.random() < 0.4:
         default = table[rng.choice(sorted(table))]  # (priority, assoc) of one operator
-        header = "E {%s, %d}" % (default[1], default[0])
+        header = "E {%s, %d%s}" % (default[1], default[0], ", nops" if marks and rng.random() < 0.5 else "")
+    elif marks and rng.random() < 0.3:
+        header = "E {nops}"
     for o, (lvl, assoc) in table.items():
         a = {"left": rng.choice(["left", "reduce"]), "right": rng.choice(["right", "shift"])}[assoc]
         meta = [a, str(lvl)]
@@ -165,6 +169,10 @@ def ambiguous_grammar(rng, table):
                 meta = [str(lvl)]
             elif same_p and rng.random() < 0.6:
                 meta = [a]
+        # the strategy switches nops / nopse only concern conflicts that priorities and
+        # associativity leave open: they must not change a conflict these decide
+        if marks and rng.random() < 0.4:
+            meta.append(rng.choice(["nops", "nopse"]))
         rng.shuffle(meta)
         alts.append('E "%s" E%s' % (o, (" {%s}" % ", ".join(meta)) if meta else ""))
     alts += ['"(" E ")"', '"n"']
@@ -231,6 +239,8 @@ def one_table(ctx):
     table = make_table(rng)
     ops = list(table)
     text = ambiguous_grammar(rng, table)
+    if "nops" in text:
+        ctx.count("shape.strategy_marks")
     case0 = {"grammar": text, "table": {k: list(v) for k, v in table.items()}}
     nlev = len(set(l for l, _ in table.values()))
     ctx.count("tables")
